@@ -100,7 +100,7 @@ def plan(ctx):
     bands = c12_geos.band_specs(rng, T)
     tasks = []
     # case counts per geometry (the run is bounded by these counts, never by time)
-    npts = 8000 if T else 2000
+    npts = 6000 if T else 2000
     nblk = 1500 if T else 300
     nlin = 600 if T else 150
     nprim = 1000 if T else 250
@@ -146,7 +146,7 @@ def line_cost(l):
     return 40
 
 
-def run_model(exe, lines):
+def run_model(exe, lines, timeout=1700):
     """Run the extracted model on the case lines in JOBS processes, balanced by estimated cost
     (the cases are very unequal: one geo line carries ~1000 queries); deterministic."""
     from concurrent.futures import ThreadPoolExecutor
@@ -160,7 +160,7 @@ def run_model(exe, lines):
         bins[j].append(i); load[j] += cost[i]
     bins = [sorted(b) for b in bins if b]
     with ThreadPoolExecutor(max_workers=len(bins) or 1) as ex:
-        outs = list(ex.map(lambda b: vf.run_driver(exe, [lines[i] for i in b], 1700, 1), bins))
+        outs = list(ex.map(lambda b: vf.run_driver(exe, [lines[i] for i in b], timeout, 1), bins))
     res = [None] * n
     for b, o in zip(bins, outs):
         for i, r in zip(b, o): res[i] = r
@@ -236,7 +236,8 @@ def process(ctx, exe, results):
     # the model
     if exe and lines:
         t0 = time.time()
-        out = run_model(exe, lines)
+        # the time limit is a safety net only (the work is bounded by the case counts): generous on a loaded machine
+        out = run_model(exe, lines, timeout=9000 if ctx.thorough else 1700)
         ctx.log('model driver: %d case lines in %.1fs (%d shards)' % (len(lines), time.time() - t0, JOBS))
         ncmp = Counter()
         for e, o in zip(expect, out):
@@ -310,7 +311,7 @@ def run(ctx):
         ok = ctx.coq_build(timeout=900)
         exe = vf.build_driver(ctx)
     ctx.log('coq build done (ok=%s); waiting for %d implementation tasks' % (ok, len(tasks)))
-    results = async_res.get(timeout=3000 if ctx.thorough else 900)
+    results = async_res.get(timeout=9000 if ctx.thorough else 1700)
     pool.close(); pool.join()
     ctx.log('implementation tasks done')
     counts, per_geo = process(ctx, exe, results)
